@@ -33,9 +33,11 @@ def config(draw, dims, p, backends=True, allow_options=True):
         if draw(st.booleans()):
             opts["feastol"] = draw(st.sampled_from([1e-4, 1e-5, 1e-6, 1e-8, 1e-9]))
         if draw(st.booleans()):
-            opts["abstol"] = draw(st.sampled_from([1e-4, 1e-6, 1e-8, 1e-9]))
+            opts["abstol"] = draw(st.sampled_from([1e-4, 1e-6, 1e-8, 1e-9]))     # abstol <= 0: known finding conelp-relative-only-zero-optimum (C02), not generated
         if draw(st.booleans()):
-            opts["reltol"] = draw(st.sampled_from([1e-4, 1e-5, 1e-7, 1e-8]))
+            opts["reltol"] = draw(st.sampled_from([1e-4, 1e-5, 1e-7, 1e-8, 0.0, -1.0]))
+        if opts.get("reltol", 1e-6) <= 0 and opts.get("abstol", 1e-7) <= 0:
+            opts["reltol"] = 1e-7          # at least one of the two must be positive
         if draw(st.integers(0, 3)) == 0:
             opts["refinement"] = draw(st.integers(0, 2))
         if draw(st.integers(0, 5)) == 0:
